@@ -150,7 +150,7 @@ func TestC17(t *testing.T) {
 	defer rec.Flush()
 	replayKnown(t, "C17")
 	off := excluded()
-	rapidSetup(env.Pick(1200, 30000), 17)
+	rapidSetup(env.Pick(1200, 12000), 17)
 	rapid.Check(t, func(rt *rapid.T) {
 		prog := gogen.Generate(rt, gogen.FlowProfile(off))
 		files := map[string]string{"main.go": prog.Main, "prelude.go": gogen.AnalysedPrelude}
